@@ -101,7 +101,9 @@ impl Counter {
     /// Decrement counter by 1 and return true if crossing limit.
     #[inline(always)]
     pub(crate) fn dec(&self) -> bool {
-        self.counter.fetch_sub(1, Ordering::Relaxed) == self.limit
+        // The counter starts at 1, so it reads `limit + 1` when `inc` has just reported the limit
+        // being hit. The decrement that takes it from there back to `limit` is the crossing.
+        self.counter.fetch_sub(1, Ordering::Relaxed) - 1 == self.limit
     }
 
     pub(crate) fn total(&self) -> usize {
